@@ -411,6 +411,8 @@ Check_C34(s, e, o, s2) ==
 
 -----------------------------------------------------------------------------
 (* State projections: model and code must agree (else: model gap).          *)
+DesyncFatal(s, e, o, s2) == (o.st # s2.st /\ ~s2.dying) \/ (o.ended /\ ~s2.dying /\ e.t # "End")
+
 Desync(s, e, o, s2) ==
     TagsIf(o.st # s2.st /\ ~s2.dying, Tag("desync", "st", EvName(e) \o "-" \o s2.st \o "-" \o o.st))
     \cup TagsIf(~s2.dying /\ {[id |-> o.reg[i].id, n |-> o.reg[i].n] : i \in DOMAIN o.reg} # s2.reg,
